@@ -9,7 +9,8 @@ import (
 	"github.com/Chocapikk/pgread/pgdump"
 )
 
-const maxOid = 5000
+// every type oid PostgreSQL 12-16 assigns to a built-in type is below 7000 (largest: 6157 _int8multirange)
+const maxOid = 7000
 
 // decode runs DecodeTuple under recover
 func decode(cols []pgdump.Column, data []byte) (m map[string]interface{}, ok bool) {
@@ -108,7 +109,7 @@ func init() {
 		def := kindOf(99999)
 		out.WriteString("/-- heap.go:readValue on a one-byte tuple 0x03 (an empty varlena): 0 = nil (DecodeType of empty input), 1 = the string \\x, 2 = the empty string; the kind for a type oid outside every table of the tool -/\n")
 		fmt.Fprintf(out, "def emptyVarlenaDefault : Nat := %d\n", def)
-		out.WriteString("/-- … and the type oids below 5000 whose kind differs from that default -/\n")
+		out.WriteString("/-- … and the type oids below maxOid whose kind differs from that default -/\n")
 		out.WriteString("def emptyVarlenaKind : List (Nat × Nat) := [")
 		first = true
 		for t := 0; t < maxOid; t++ {
